@@ -39,6 +39,7 @@ static int  nstreams = 0, next_id = 1;
 static long counts[K_N];
 static long ordinal     = 0; /* all tracked calls */
 static long kordinal    = 0; /* tracked calls of the planned kind */
+void __sanitizer_print_stack_trace(void);
 static long fault_at    = -1;
 static int  fault_sticky = 0, fault_errno = EIO, fault_mode = 0, fault_kind = -1;
 static int  fault_fired = 0;
@@ -105,6 +106,13 @@ tick(int kind)
         fail = 1;
     if (fail) {
         faults_delivered++;
+        if (faults_delivered == 1 && getenv("H4X_FAULT_STACK")) {
+            /* call site of the failing stdio call (used to identify known findings by call site) */
+            fflush(stdout);
+            fprintf(stderr, "H4X-FAULT-STACK\n");
+            __sanitizer_print_stack_trace();
+            fprintf(stderr, "H4X-FAULT-STACK-END\n");
+        }
         errno = fault_errno;
         if (wlog) {
             fprintf(wlog, "X %s %ld\n", kname[kind], ordinal - 1);
